@@ -321,10 +321,48 @@ def response_ok(model: Model, folder: Folder, q: str, r, p) -> Tuple[bool, str]:
     return True, "ExtendedResponse(message_id=0, protocolError, notice OID)"
 
 
+def encode_origins(model: Model, fi, call: ast.Call, depth: int = 0):
+    """[(class, field, is_loop_element)] for the text encoded by `call` in fi: a field of self, an element of a list field of
+    self, or - when fi is a module-level helper - the same question asked at every call site of the helper. None = unknown."""
+    recv = call.func.value
+    if isinstance(recv, ast.Attribute) and isinstance(recv.value, ast.Name) and recv.value.id == "self" and fi.cls:
+        return [(fi.cls, recv.attr, False)]
+    if not isinstance(recv, ast.Name):
+        return None
+    src: Optional[ast.expr] = None
+    loop = False
+    for f in walk_no_nested(fi.node):
+        if isinstance(f, ast.For) and isinstance(f.target, ast.Name) and f.target.id == recv.id:
+            src, loop = f.iter, True
+    if src is None and recv.id in fi.params():
+        src = recv
+    if src is None:
+        return None
+    if isinstance(src, ast.Attribute) and isinstance(src.value, ast.Name) and src.value.id == "self" and fi.cls:
+        return [(fi.cls, src.attr, loop)]
+    if isinstance(src, ast.Name) and src.id in fi.params() and fi.cls is None and depth < 3:
+        idx = fi.params().index(src.id)
+        out = []
+        n_sites = 0
+        for cq, cfi in model.functions.items():
+            if isinstance(cfi.node, ast.Lambda):
+                continue
+            for n in walk_no_nested(cfi.node):
+                if isinstance(n, ast.Call) and isinstance(n.func, ast.Name) and model.resolve_name(cfi.module, n.func.id) == fi.qualname:
+                    n_sites += 1
+                    a = n.args[idx] if idx < len(n.args) else next((k.value for k in n.keywords if k.arg == src.id), None)
+                    if isinstance(a, ast.Attribute) and isinstance(a.value, ast.Name) and a.value.id == "self" and cfi.cls:
+                        out.append((cfi.cls, a.attr, loop))
+                    else:
+                        return None
+        return out if n_sites else None
+    return None
+
+
 def encode_discharge(model: Model, ex, q: str, e: Esc, responses: List[Obj], folder: Folder, mr: MayRaise, run: Run) -> Tuple[bool, str]:
     fi = model.functions.get(e.func)
-    if fi is None or fi.cls is None:
-        return False, "origin is not a method"
+    if fi is None or isinstance(fi.node, ast.Lambda):
+        return False, "origin is not a function"
     # which field does the encoded text come from?
     call = None
     for n in walk_no_nested(fi.node):
@@ -332,49 +370,45 @@ def encode_discharge(model: Model, ex, q: str, e: Esc, responses: List[Obj], fol
             call = n
     if call is None:
         return False, "encode call not found"
-    recv = call.func.value
-    field = None
-    loop_field = None
-    if isinstance(recv, ast.Attribute) and isinstance(recv.value, ast.Name) and recv.value.id == "self":
-        field = recv.attr
-    elif isinstance(recv, ast.Name):
-        for f in walk_no_nested(fi.node):
-            if isinstance(f, ast.For) and isinstance(f.target, ast.Name) and f.target.id == recv.id and isinstance(f.iter, ast.Attribute) and isinstance(f.iter.value, ast.Name) and f.iter.value.id == "self":
-                loop_field = f.iter.attr
-    if field is None and loop_field is None:
+    origins = encode_origins(model, fi, call)
+    if not origins:
         return False, "encoded text is not a field of the message"
-    objs = []
-    for r in responses:
-        objs += find_objs(r, lambda c: model.is_subclass(c, fi.cls) if c in model.classes else False)
-    if not objs:
-        return True, f"no instance of {fi.cls.split('.')[-1]} is part of the constructed notification (its list arguments are empty literals)"
-    for o in objs:
-        v = o.fields.get(field or loop_field)
-        if loop_field is not None:
-            if (isinstance(v, Const) and v.v is None) or (isinstance(v, ListV) and not v.tags):
+    n_objs = 0
+    for ocls, fname, is_loop in origins:
+        objs = []
+        for r in responses:
+            objs += find_objs(r, lambda c: model.is_subclass(c, ocls) if c in model.classes else False)
+        n_objs += len(objs)
+        for o in objs:
+            v = o.fields.get(fname)
+            if is_loop:
+                if (isinstance(v, Const) and v.v is None) or (isinstance(v, ListV) and not v.tags):
+                    continue
+                return False, f"{fname} is {desc(v)}: elements not known"
+            if isinstance(v, Const) and v.v is None:
                 continue
-            return False, f"{loop_field} is {desc(v)}: elements not known"
-        if isinstance(v, Const) and v.v is None:
-            continue
-        if isinstance(v, Const) and isinstance(v.v, str):
-            if encodable(v.v):
-                continue
-            return False, f"constant {v.v!r} is not encodable"
-        if isinstance(v, EnumV):
-            try:
-                val = folder.enum_member(v.cls, v.member).value
-            except Unfoldable:
-                return False, "enum value not foldable"
-            if isinstance(val, str) and encodable(val):
-                continue
-            return False, "enum value not encodable text"
-        if isinstance(v, Unknown) and v.why == "str":
-            ok, why = error_text_encodable(model, mr, run)
-            if ok:
-                continue
-            return False, why
-        return False, f"{field} is {desc(v)}: not a constant"
-    return True, f"`{field or loop_field}` is constant, None/empty, or error text built from ints, enums, tags and strictly decoded strings"
+            if isinstance(v, Const) and isinstance(v.v, str):
+                if encodable(v.v):
+                    continue
+                return False, f"constant {v.v!r} is not encodable"
+            if isinstance(v, EnumV):
+                try:
+                    val = folder.enum_member(v.cls, v.member).value
+                except Unfoldable:
+                    return False, "enum value not foldable"
+                if isinstance(val, str) and encodable(val):
+                    continue
+                return False, "enum value not encodable text"
+            if isinstance(v, Unknown) and v.why == "str":
+                ok, why = error_text_encodable(model, mr, run)
+                if ok:
+                    continue
+                return False, why
+            return False, f"{fname} is {desc(v)}: not a constant"
+    names = "/".join(sorted({f for _, f, _ in origins}))
+    if not n_objs:
+        return True, f"no instance of {'/'.join(sorted({c.split('.')[-1] for c, _, _ in origins}))} is part of the constructed notification (its list arguments are empty literals)"
+    return True, f"`{names}` is constant, None/empty, or error text built from ints, enums, tags and strictly decoded strings"
 
 
 _err_text_cache: Dict[int, Tuple[bool, str]] = {}
@@ -515,7 +549,7 @@ def lenient_decode_rule(model: Model, mr: MayRaise, run: Run, reach: Set[str]) -
                                      f"`{target}` is decoded with a non-strict error handler and is interpolated into the ProtocolError text that "
                                      "LDAPServer.receive re-encodes strictly for the notice of disconnection: undecodable peer bytes then make "
                                      "receive raise UnicodeEncodeError instead of ProtocolError", model.loc(fi.module, c)))
-    run.floor("decode sites on the receive path", n, 20)
+    run.floor("decode sites on the receive path", n, 12)
 
 
 def decode_target_field(fi: FuncInfo, call: ast.Call) -> Optional[str]:
